@@ -71,6 +71,57 @@ Definition eval_pred (p : cap_pred) (c : caps) : bool :=
   | PIsOpaV1 => is_opa_v1 c
   end.
 
+(* capabilities.rego as written: one `<predicate> if <condition>` rule per row (regenerated from the source into
+   Gen/GatedRules.v [cap_pred_rules]; the obligation is that it is [pred_rules_spec], whose meaning is [eval_pred]) *)
+Inductive pred_clause :=
+| CKeyword (name : str)       (* "<name>" in config.capabilities.future_keywords           *)
+| CFeature (name : str)       (* "<name>" in config.capabilities.features                  *)
+| CBuiltin (name : str)       (* "<name>" in object.keys(config.capabilities.builtins)     *)
+| CPred (p : cap_pred)        (* another predicate of the package                           *)
+| CUnknown (text : str).      (* a condition the generator does not understand              *)
+
+Definition eval_clause (c : caps) (cl : pred_clause) : bool :=
+  match cl with
+  | CKeyword n => str_in n (cap_future_keywords c)
+  | CFeature n => str_in n (cap_features c)
+  | CBuiltin n => str_in n (cap_builtins c)
+  | CPred p => eval_pred p c
+  | CUnknown _ => false
+  end.
+
+Definition cap_pred_eqb (p q : cap_pred) : bool :=
+  match p, q with
+  | PHasObjectKeys, PHasObjectKeys | PHasStringsCount, PHasStringsCount | PHasIf, PHasIf
+  | PHasContains, PHasContains | PHasRegoV1Feature, PHasRegoV1Feature | PIsOpaV1, PIsOpaV1 => true
+  | _, _ => false
+  end.
+
+(* a predicate holds when one of its rules does *)
+Definition pred_by_rules (rules : list (cap_pred * pred_clause)) (p : cap_pred) (c : caps) : bool :=
+  existsb (fun pc => cap_pred_eqb (fst pc) p && eval_clause c (snd pc)) rules.
+
+Definition pred_rules_spec : list (cap_pred * pred_clause) :=
+  [ (PHasObjectKeys, CBuiltin s_object_keys);
+    (PHasStringsCount, CBuiltin s_strings_count);
+    (PHasIf, CKeyword s_if); (PHasIf, CPred PHasRegoV1Feature); (PHasIf, CPred PIsOpaV1);
+    (PHasContains, CKeyword s_contains); (PHasContains, CPred PHasRegoV1Feature); (PHasContains, CPred PIsOpaV1);
+    (PHasRegoV1Feature, CFeature s_rego_v1_import);
+    (PIsOpaV1, CFeature s_rego_v1) ].
+
+Definition clause_eqb (a b : pred_clause) : bool :=
+  match a, b with
+  | CKeyword x, CKeyword y | CFeature x, CFeature y | CBuiltin x, CBuiltin y => str_eqb x y
+  | CPred p, CPred q => cap_pred_eqb p q
+  | _, _ => false
+  end.
+
+Fixpoint pred_rules_eqb (a b : list (cap_pred * pred_clause)) : bool :=
+  match a, b with
+  | [], [] => true
+  | (p, x) :: a', (q, y) :: b' => cap_pred_eqb p q && clause_eqb x y && pred_rules_eqb a' b'
+  | _, _ => false
+  end.
+
 Definition eval_atom (c : caps) (f : file_info) (a : atom) : bool :=
   match a with
   | ACap p => eval_pred p c
@@ -322,3 +373,63 @@ Fixpoint table_matches (gs : list gate_row) (ns : list need_row) : bool :=
   | g :: gs', n :: ns' => row_matches g n && table_matches gs' ns'
   | _, _ => false
   end.
+
+(* ---------------------------------------------------------------------------------------------- *)
+(* Capability dimensions: what a need reads from the target.  The generated capabilities files of the
+   check (tools/props/c19.py) vary every dimension some need reads, independently, over all subsets;
+   [need_unmet] depends on nothing else of the target (Proofs/Notices.v need_unmet_reads_only). *)
+Inductive dim :=
+| DBuiltin (name : str)       (* a built-in function is declared      *)
+| DKeyword (name : str)       (* an entry of future_keywords           *)
+| DFeature (name : str).      (* an entry of features                  *)
+
+Definition dim_on (d : dim) (c : caps) : bool :=
+  match d with
+  | DBuiltin n => str_in n (cap_builtins c)
+  | DKeyword n => str_in n (cap_future_keywords c)
+  | DFeature n => str_in n (cap_features c)
+  end.
+
+Definition need_reads (n : need) : list dim :=
+  match n with
+  | NeedBuiltin b => [DBuiltin b]
+  | NeedKeywordIf => [DKeyword s_if; DFeature s_rego_v1_import; DFeature s_rego_v1]
+  | NeedKeywordContains => [DKeyword s_contains; DFeature s_rego_v1_import; DFeature s_rego_v1]
+  | NeedRegoV1Import => [DFeature s_rego_v1_import; DFeature s_rego_v1]
+  | ObsoleteWithFeature ft => [DFeature ft]
+  | OnlyV0WhenTargetIsV1 => [DFeature s_rego_v1]
+  | NeedFileName => []
+  end.
+
+Definition dim_eqb (a b : dim) : bool :=
+  match a, b with
+  | DBuiltin x, DBuiltin y | DKeyword x, DKeyword y | DFeature x, DFeature y => str_eqb x y
+  | _, _ => false
+  end.
+
+Fixpoint dim_in (d : dim) (l : list dim) : bool :=
+  match l with [] => false | x :: l' => dim_eqb d x || dim_in d l' end.
+
+Fixpoint dims_dedup (l : list dim) : list dim :=
+  match l with
+  | [] => []
+  | x :: l' => if dim_in x l' then dims_dedup l' else x :: dims_dedup l'
+  end.
+
+(* the dimensions any need of a table reads *)
+Definition table_dims (t : list need_row) : list dim :=
+  dims_dedup (flat_map (fun r => need_reads (nd_need r)) t).
+
+(* all assignments of on / off to a list of dimensions *)
+Fixpoint assignments (ds : list dim) : list (list (dim * bool)) :=
+  match ds with
+  | [] => [[]]
+  | d :: ds' => flat_map (fun a => [(d, true) :: a; (d, false) :: a]) (assignments ds')
+  end.
+
+Definition realises (c : caps) (a : list (dim * bool)) : bool :=
+  forallb (fun db => Bool.eqb (dim_on (fst db) c) (snd db)) a.
+
+(* every assignment of the dimensions the needs read is realised by one of the targets *)
+Definition dims_covered (t : list need_row) (targets : list caps) : bool :=
+  forallb (fun a => existsb (fun c => realises c a) targets) (assignments (table_dims t)).
